@@ -59,6 +59,7 @@ def run(chk, repo):
     chk.attempt(cache_key, chk, op)
     chk.attempt(provenance, chk, op)
     chk.attempt(serialised_last, chk, op, "C07-G6")
+    chk.attempt(cache_independent_of_options, chk, op, "C07-G9")
     from .c10 import w3
     chk.rule("C10-W3", "no module-level state / memoisation on the open path: a later open must honour its own records_per_chunk and cache options (C07-G5)", 1)
     chk.attempt(w3, chk, op)
@@ -66,6 +67,66 @@ def run(chk, repo):
 
 
 # ----------------------------------------------------------------------------
+def cache_independent_of_options(chk, op, rule):
+    """the group handed to create_cache in open_image is computed from the file alone: no parameter of open_image other than the file
+    (mapper, path), the two cache switches and records_per_chunk (which is not stored: decode takes it from the reading call) flows
+    into it.  An index written under an option of one call is read by every later call without it"""
+    from ..interproc import bind_args
+    chk.rule(rule, "what open_image writes to the cache does not depend on further options of the call that writes it", 1)
+    fi = op.fi(OPEN_IMAGE)
+    known = {"mapper", "path", "use_cache", "create_cache", "records_per_chunk"}
+    a = fi.node.args
+    params = [x.arg for x in a.posonlyargs + a.args + a.kwonlyargs] + ([a.vararg.arg] if a.vararg else []) + ([a.kwarg.arg] if a.kwarg else [])
+    extra = [p_ for p_ in params if p_ not in known]
+    sites = [n for n in op.g.sites.get((fi.key, CREATE_CACHE), [])]
+    calls = []
+    for n in sites:
+        if not isinstance(n, ast.Call) and isinstance(getattr(n, "_parent", None), ast.Call) and n._parent.func is n:
+            n = n._parent
+        if isinstance(n, ast.Call):
+            calls.append(n)
+    if not calls:
+        raise AnalysisError(f"{op.where(fi)}: no direct call of create_cache in open_image; what is written is not decided by this rule")
+    if not extra:
+        chk.ok(rule, op.where(fi), f"open_image has no option besides {sorted(known)}")
+        return
+    # names that carry (something computed from) an extra option: a fixpoint over the assignments of the function body
+    tainted = set(extra)
+    changed = True
+
+    def mentions(e):
+        return any(isinstance(x, ast.Name) and x.id in tainted for x in ast.walk(e))
+    while changed:
+        changed = False
+        for n in fi.own_nodes():
+            targets, value = [], None
+            if isinstance(n, ast.Assign):
+                targets, value = n.targets, n.value
+            elif isinstance(n, (ast.AugAssign, ast.AnnAssign)) and n.value is not None:
+                targets, value = [n.target], n.value
+            elif isinstance(n, (ast.For, ast.comprehension)):
+                targets, value = [n.target], n.iter
+            elif isinstance(n, ast.Expr) and isinstance(n.value, ast.Call) and isinstance(n.value.func, ast.Attribute) and n.value.func.attr in ("update", "append", "extend", "setdefault", "pop", "__setitem__", "insert"):
+                targets, value = [n.value.func.value], n.value
+            if value is None or not mentions(value):
+                continue
+            for t in targets:
+                for x in ast.walk(t):
+                    if isinstance(x, ast.Name) and x.id not in tainted and (isinstance(x.ctx, ast.Store) or x is t or isinstance(t, (ast.Attribute, ast.Subscript))):
+                        tainted.add(x.id)
+                        changed = True
+    for n in calls:
+        cs = [x for x in resolve_callees(op.repo, fi, n.func) if x.key == CREATE_CACHE]
+        if not cs:
+            continue
+        b, _ = bind_args(cs[0], n)
+        data = b.get(op.fi(CREATE_CACHE).positional_params[2])
+        dep = sorted({x.id for x in ast.walk(data) if isinstance(x, ast.Name) and x.id in tainted}) if data is not None else []
+        chk.require(not dep, rule, op.where(fi), f"{short(n, 50)}: the group written does not depend on {extra}",
+                    f"{short(n, 60)} writes `{short(data, 30)}`, which is computed from the option(s) {[e_ for e_ in extra if e_ in tainted][:3]} of this call (through {dep[:3]}): the index of the image then holds "
+                    f"what this call asked for, and every later open that reads it - with other options, from other code - gets that instead of what the file says", key="cache-depends-on-option")
+
+
 def serialised_last(chk, op, rule):
     """typestate: the group handed to create_cache is final - nothing stores into it afterwards.  A later store (name,
     variable, attribute) reaches the caller of this open but not the index file, so a cached open returns another tree"""
